@@ -259,6 +259,10 @@ def mol_cases(ctx):
     m = gen_mol(rng, "H2")
     cases.append(dict(m, method="pyscf", ae=None, ao=None, taper=False, mapping="parity"))
     cases.append(dict(m, method="openfermion", ae=None, ao=None, taper=False, mapping="bravyi_kitaev"))
+    # frozen core orbitals (the mean-field correction 2J-K of the core enters the active one-electron integrals)
+    mcore = {"name": "LiH", "symbols": ["Li", "H"], "coords": [[0.0, 0.0, 0.0], [0.0, 0.0, 3.0]], "charge": 0}
+    add(mcore, "dhf", ae=2, ao=2, taper=False)
+    add(mcore, "pyscf", ae=2, ao=2, taper=False)
     if ctx.tier != "quick":
         for kind in ["H2", "HeH+", "H3+"]:
             for _ in range(3):
